@@ -870,7 +870,7 @@ var posInText = regexp.MustCompile(`([A-Za-z0-9_./-]+\.json):(\d+):(\d+)`)
 var rootPos = regexp.MustCompile(`\bat (\d+):(\d+):`)
 
 // misplaced checks the positions a diagnostic carries against the documents as they were served.
-func misplaced(d doc, errText string) string {
+func misplaced(d doc, errText string, loose bool) string {
 	var ms [][]string
 	ms = append(ms, posInText.FindAllStringSubmatch(errText, -1)...)
 	// a position without a file name lies in the root document
@@ -891,6 +891,9 @@ func misplaced(d doc, errText string) string {
 		col, _ := strconv.Atoi(m[3])
 		if line != 1 || col < 1 || col > len(text) {
 			return fmt.Sprintf("%s:%d:%d lies outside %s (1 line, %d bytes)", m[1], line, col, name, len(text))
+		}
+		if loose {
+			continue
 		}
 		lo, hi := col-1-10, col-1+10
 		if lo < 0 {
@@ -931,6 +934,9 @@ type cycleCase struct {
 	Doc  doc
 	Want string // "generates" | "error:<substring>"
 }
+
+// loose: not a cycle; the reported positions only have to lie inside the files they name
+func (c cycleCase) loose() bool { return strings.HasPrefix(c.Name, "located:") }
 
 func cycles(thorough bool) []cycleCase {
 	strS := M{"type": "string"}
@@ -977,6 +983,14 @@ func cycles(thorough bool) []cycleCase {
 			"root.json": head(M{"/a": M{"get": op("a", M{"parameters": []any{R("f1.json#/P")}})}}),
 			"f1.json":   {"P": R("f2.json#/Q")},
 			"f2.json":   {"A0pad": "0123456789012345678901234", "Q": R("f1.json#/P")}}}, ir},
+		// faults that live in another file than the construct that trips over them: the diagnostic names
+		// a file and a position, and the position has to be one of that file
+		cycleCase{"located: parameter style refused for a schema of another file", doc{Root: "root.json", Files: map[string]M{
+			"root.json": head(M{"/a": M{"get": op("a", M{"parameters": []any{M{"name": "q", "in": "query", "style": "deepObject", "explode": true, "schema": R("other.json#/components/schemas/S")}}})}}),
+			"other.json": {"A0pad": strings.Repeat("0123456789", 80), "components": M{"schemas": M{"S": M{"type": "string"}}}}}}, "error:invalid schema.type:style:explode"},
+		cycleCase{"located: parameter style refused for a member of a composition in another file", doc{Root: "root.json", Files: map[string]M{
+			"root.json": head(M{"/a": M{"get": op("a", M{"parameters": []any{M{"name": "c", "in": "cookie", "style": "form", "explode": true, "schema": R("other.json#/components/schemas/U")}}})}}),
+			"other.json": {"A0pad": strings.Repeat("0123456789", 80), "components": M{"schemas": M{"U": M{"oneOf": []any{M{"type": "string"}, M{"type": "array", "items": M{"type": "string"}}}}}}}}}, "error:invalid schema.type:style:explode"},
 		cycleCase{"parameter cycle root -> external -> root", doc{Root: "root.json", Files: map[string]M{
 			"root.json": M{"openapi": "3.0.3", "info": M{"title": "t", "version": "1"}, "paths": M{"/a": M{"get": op("a", M{"parameters": []any{R("#/components/parameters/P")}})}}, "components": M{"parameters": M{"P": R("ext.json#/Q")}}},
 			"ext.json":  {"A0pad": "0123456789012345678901234567890123456789", "Q": R("root.json#/components/parameters/P")}}}, ir},
@@ -1224,7 +1238,7 @@ func main() {
 		case outcome == "error" && len(c.Doc.Files) > 1:
 			// located: every file:line:column of the diagnostic lies in that file, on a reference
 			// (files are served as compact JSON: line 1, column = byte offset + 1)
-			if bad := misplaced(c.Doc, errText); bad != "" {
+			if bad := misplaced(c.Doc, errText, c.loose()); bad != "" {
 				attrs["class"] = "cycle-error-located-outside-a-reference/" + c.Name
 				k.Detail = bad + " | " + trunc(errText, 400)
 			}
